@@ -151,3 +151,4 @@ u32 __cxa_atexit(void *f, void *a, void *d) { return 0; }
 /* harness API */
 u8 vp_false(void) { return 0; }
 void vp_note(void *tag, u64 v) { }
+void LogPrintfFunc(u8 *a0, u8 *a1, u8 *a2, u32 a3, u32 a4, u32 a5, u8 *a6, ...) { }
